@@ -211,7 +211,7 @@ def run(ctx):
                     combos.append([k2, k])
     if ctx.thorough:
         for k in TARGETS:
-            for k2, k3 in itertools.permutations([x for x in kinds_all if x != k], 2):
+            for k2, k3 in itertools.combinations([x for x in kinds_all if x != k], 2):
                 combos.append([k2, k, k3])
     for kinds in combos:
         for k in kinds:
